@@ -36,6 +36,10 @@ for m in ("ijmp", "icall", "push r0", "pop r0", "lds r16, 0x60", "sts 0x60, r16"
 for f in ("Y+1", "Z+1"):
     add("ldd r0, %s" % f, "Tiny1x", *(["NoYreg"] if f[0] == "Y" else []))
     add("std %s, r0" % f, "Tiny1x", *(["NoYreg"] if f[0] == "Y" else []))
+for f in ("Y+1", "Z+1", "Y+63", "Z+0"):
+    # LDD / STD spelled ld / st
+    add("ld r0, %s" % f, "Tiny1x", *(["NoYreg"] if f[0] == "Y" else []))
+    add("st %s, r0" % f, "Tiny1x", *(["NoYreg"] if f[0] == "Y" else []))
 for f in ("X", "X+", "-X", "Y", "Y+", "-Y", "Z", "Z+", "-Z"):
     fl = {"X": ["NoXreg"], "Y": ["NoYreg"], "Z": []}[f.strip("+-")]
     add("ld r0, %s" % f, *fl)
